@@ -91,7 +91,14 @@ def apply_edit(model, edit, fresh) -> str:
             return "noop"
         n.replace_input_with(b % len(n.inputs), None)
     elif kind == "rename_value" and v is not None:
-        v.name = fresh("rv")
+        # any value may be renamed: node outputs, graph inputs and initializers (the latter are re-keyed in their mapping)
+        pool, seen_ = [], set()
+        graphs_ = [g_ for top in [model.graph] + [f.graph for f in model.functions.values()] for g_ in [top] + list(top.subgraphs())]
+        for x in outs + [y for g_ in graphs_ for y in list(g_.inputs) + list(g_.initializers.values())]:
+            if id(x) not in seen_:
+                seen_.add(id(x))
+                pool.append(x)
+        pool[b % len(pool)].name = fresh("rv")
     elif kind == "rename_node":
         n.name = fresh("rn")
     elif kind == "add_node":
